@@ -9,6 +9,7 @@ package aggregate
 // transfer application's (through ibc.Module); the second call is the aggregate keeper's hook.
 
 // verif:func (IBCMiddleware).OnRecvPacket
+//@ requires [registry-inv3] denomsListed(aggregate(ctx))
 //@ modifies world(ctx)
 //@ ensures [transparent] result == callres("OnRecvPacket", 0, 1)
 //@ ensures [app-called-once-first] ncalls("OnRecvPacket") >= 1 && ncalls("OnRecvPacket") <= 2
